@@ -70,6 +70,7 @@ THEOREMS = {
         "Shroud.Flags.clone_assign_sites",
         "Shroud.Flags.direct_writes_only_switch_off",
         "Shroud.Flags.clear_sites",
+        "Shroud.Flags.container_guards_on_the_member",
     ]
 }
 
